@@ -229,9 +229,51 @@ def run_random(shard, ctx):
                         sc_.name = rng.choice(["SUPER_1", "renamed", "s_unloc_1"])
                     KNOWN_SCAFFOLD["mode"] = "renamed-after-add"
                     ctx.count("class:scaffold-renamed-after-it-was-added")
+                elif i % 8 == 4:
+                    # rows of the indexed scaffold are replaced in place by rows of the same length (a contig
+                    # turned round or re-tagged, a gap filled by an equally long contig, a contig masked to a
+                    # gap): the lookup answers with the rows the scaffold has now
+                    from tola.assembly.fragment import Fragment as _Fr
+                    from tola.assembly.gap import Gap as _Gp
+
+                    sc_ = next(iter(ia.scaffolds))
+                    for _r in range(rng.randint(1, 3)):
+                        k_ = rng.randrange(len(sc_.rows))
+                        old_ = sc_.rows[k_]
+                        m_ = rng.random()
+                        if m_ < 0.4 and not hasattr(old_, "gap_type"):
+                            sc_.rows[k_] = _Fr(old_.name, old_.start, old_.end, -old_.strand if old_.strand else 1, ("Edited",))
+                        elif m_ < 0.7:
+                            sc_.rows[k_] = _Fr(f"fill{k_}", 5, 4 + old_.length, 1)
+                        else:
+                            sc_.rows[k_] = _Gp(old_.length, "scaffold")
+                    ctx.count("class:rows-replaced-in-place-after-indexing")
         except Exception as e:  # noqa: BLE001
             ctx.violation(f"indexing-scaffold-raised-{type(e).__name__}", f"IndexedAssembly(...) raised {type(e).__name__}: {e}; rows={rows[:6]}", {"kind": "query", "rows": rows, "a": 1, "b": 1})
             continue
+        if i % 6 == 1:
+            # an add that fails part-way (a row that is no row) leaves the assembly as it was: the repaired scaffold
+            # is then added like any other and looked up
+            bad_rows = gen_random_rows(rng, maxrows=8)
+            bad = build_scaffold([f"again{i}", bad_rows])
+            pos_ = rng.randrange(len(bad.rows) + 1)
+            bad.rows.insert(pos_, None)
+            try:
+                ia.add_scaffold(bad)
+                ctx.count("note:scaffold-with-a-non-row-accepted")
+            except Exception:  # noqa: BLE001
+                del bad.rows[pos_]
+                try:
+                    ia.add_scaffold(bad)
+                    gb = [0]
+                    for r in bad_rows:
+                        gb.append(gb[-1] + (r[3] - r[2] + 1 if r[0] == "F" else r[1]))
+                    for _k in range(8):
+                        qa = max(1, rng.choice(gb) + rng.choice([-1, 0, 1]))
+                        _query(ia, f"again{i}", qa, max(qa, rng.choice(gb) + rng.choice([0, 1, 5])), 1)
+                    ctx.count("class:scaffold-added-again-after-a-failed-add")
+                except Exception as e:  # noqa: BLE001
+                    ctx.violation(f"add-after-failed-add-raised-{type(e).__name__}", f"{e}; rows={bad_rows[:6]}", {"kind": "query", "rows": bad_rows, "a": 1, "b": 1})
         if i % 5 == 2:
             # a second scaffold of the same name is refused - and must leave the first one usable
             other = build_scaffold(["s", gen_random_rows(rng)])
@@ -388,6 +430,8 @@ def gates(c, tier):
         "class:scaffold-longer-than-2^32": 50,
         "class:scaffolds-given-as-one-shot-iterable": 500,
         "class:scaffold-renamed-after-it-was-added": 500,
+        "class:rows-replaced-in-place-after-indexing": 500,
+        "class:scaffold-added-again-after-a-failed-add": 300,
         "class:lookup-after-refused-duplicate-add": 50,
         "class:assemblies-derived-from-one-another": 50,
         "class:same-scaffold-object-edited-and-indexed-again": 500,
